@@ -32,7 +32,7 @@ type Schema struct {
 
 type Prop struct {
 	Name  string
-	Flags string // r required, o optional, f filterable, s sortable, q searchable, p primary key, d / P / D default filter (a declared option / the same with the enum's prefix / not an option)
+	Flags string // r required, o optional, f filterable, s sortable, q searchable, p primary key, h shard key, F flattened object field, d / P / D default filter (a declared option / the same with the enum's prefix / not an option)
 	T     *Type
 }
 
@@ -79,11 +79,12 @@ type TopicMsg struct {
 }
 
 type Entity struct {
-	Name   string
-	Keys   []*Prop
-	Data   []*Prop
-	Status []string
-	Events []*TopicMsg
+	Name     string
+	Keys     []*Prop // flags: p primary key, h shard key
+	Data     []*Prop
+	Status   []string
+	Events   []*TopicMsg
+	Commands []*Service // `commands [Name] { … }` blocks; Name "" = unnamed (wire: "~")
 }
 
 var scalarJ5s = map[string]string{
@@ -132,6 +133,35 @@ func (e *enc) typ(t *Type) {
 	}
 }
 
+func (e *enc) service(sv *Service) {
+	if sv.Name == "" {
+		e.add("~")
+	} else {
+		e.add(sv.Name)
+	}
+	if sv.Base == nil {
+		e.add("~")
+	} else {
+		e.add(vh.Hex([]byte(*sv.Base)))
+	}
+	e.n(len(sv.Methods))
+	for _, m := range sv.Methods {
+		e.add(m.Name, m.Verb, vh.Hex([]byte(m.Path)))
+		e.props(m.Req)
+		if m.HasResp {
+			e.add("1")
+		} else {
+			e.add("0")
+		}
+		e.props(m.Resp)
+		if m.List {
+			e.add("1")
+		} else {
+			e.add("0")
+		}
+	}
+}
+
 func (s *Spec) Encode() string {
 	e := &enc{}
 	if s.Extra > 0 {
@@ -151,28 +181,7 @@ func (s *Spec) Encode() string {
 	}
 	e.n(len(s.Services))
 	for _, sv := range s.Services {
-		e.add(sv.Name)
-		if sv.Base == nil {
-			e.add("~")
-		} else {
-			e.add(vh.Hex([]byte(*sv.Base)))
-		}
-		e.n(len(sv.Methods))
-		for _, m := range sv.Methods {
-			e.add(m.Name, m.Verb, vh.Hex([]byte(m.Path)))
-			e.props(m.Req)
-			if m.HasResp {
-				e.add("1")
-			} else {
-				e.add("0")
-			}
-			e.props(m.Resp)
-			if m.List {
-				e.add("1")
-			} else {
-				e.add("0")
-			}
-		}
+		e.service(sv)
 	}
 	e.n(len(s.Topics))
 	for _, t := range s.Topics {
@@ -197,6 +206,10 @@ func (s *Spec) Encode() string {
 		for _, m := range en.Events {
 			e.add(m.Name)
 			e.props(m.Props)
+		}
+		e.n(len(en.Commands))
+		for _, sv := range en.Commands {
+			e.service(sv)
 		}
 	}
 	return strings.Join(e.toks, " ")
@@ -281,6 +294,29 @@ func unhexStr(d *dec) string {
 	return string(b)
 }
 
+func (d *dec) service() *Service {
+	sv := &Service{Name: d.next()}
+	if sv.Name == "~" {
+		sv.Name = ""
+	}
+	if d.pos < len(d.toks) && d.toks[d.pos] == "~" {
+		d.next()
+	} else {
+		b := unhexStr(d)
+		sv.Base = &b
+	}
+	for j, m := 0, d.n(); j < m && d.err == nil; j++ {
+		me := &Method{Name: d.next(), Verb: d.next()}
+		me.Path = unhexStr(d)
+		me.Req = d.props()
+		me.HasResp = d.next() == "1"
+		me.Resp = d.props()
+		me.List = d.next() == "1"
+		sv.Methods = append(sv.Methods, me)
+	}
+	return sv
+}
+
 func DecodeSpec(op string) (*Spec, error) {
 	d := &dec{toks: strings.Split(op, " ")}
 	if d.next() != "chain" {
@@ -304,23 +340,7 @@ func DecodeSpec(op string) (*Spec, error) {
 		s.Schemas = append(s.Schemas, sc)
 	}
 	for i, n := 0, d.n(); i < n && d.err == nil; i++ {
-		sv := &Service{Name: d.next()}
-		if d.pos < len(d.toks) && d.toks[d.pos] == "~" {
-			d.next()
-		} else {
-			b := unhexStr(d)
-			sv.Base = &b
-		}
-		for j, m := 0, d.n(); j < m && d.err == nil; j++ {
-			me := &Method{Name: d.next(), Verb: d.next()}
-			me.Path = unhexStr(d)
-			me.Req = d.props()
-			me.HasResp = d.next() == "1"
-			me.Resp = d.props()
-			me.List = d.next() == "1"
-			sv.Methods = append(sv.Methods, me)
-		}
-		s.Services = append(s.Services, sv)
+		s.Services = append(s.Services, d.service())
 	}
 	for i, n := 0, d.n(); i < n && d.err == nil; i++ {
 		t := &Topic{Kind: d.next(), Name: d.next()}
@@ -339,6 +359,9 @@ func DecodeSpec(op string) (*Spec, error) {
 		en.Status = d.strs()
 		for j, m := 0, d.n(); j < m && d.err == nil; j++ {
 			en.Events = append(en.Events, &TopicMsg{Name: d.next(), Props: d.props()})
+		}
+		for j, m := 0, d.n(); j < m && d.err == nil; j++ {
+			en.Commands = append(en.Commands, d.service())
 		}
 		s.Entities = append(s.Entities, en)
 	}
@@ -466,6 +489,12 @@ func (r *rend) prop(word string, p *Prop) {
 	if word == "key" && p.Has('p') {
 		body = append(body, func() { r.line("primary = true") })
 	}
+	if word == "key" && p.Has('h') {
+		body = append(body, func() { r.line("shardKey = true") })
+	}
+	if p.Has('F') && lf.K == "R" && lf.Sub == "o" && p.T.K == "R" {
+		body = append(body, func() { r.line("flatten = true") })
+	}
 	switch lf.K {
 	case "IO":
 		for _, c := range lf.Props {
@@ -549,6 +578,30 @@ func (r *rend) schemas(scs []*Schema) {
 	}
 }
 
+func (r *rend) methods(ms []*Method) {
+	for _, m := range ms {
+		r.line("")
+		r.line("method %s {", m.Name)
+		r.ind++
+		r.line("httpMethod = %q", m.Verb)
+		r.line("httpPath = %s", strconv.Quote(m.Path))
+		r.line("request {")
+		r.ind++
+		r.props("field", m.Req)
+		r.ind--
+		r.line("}")
+		if m.HasResp {
+			r.line("response {")
+			r.ind++
+			r.props("field", m.Resp)
+			r.ind--
+			r.line("}")
+		}
+		r.ind--
+		r.line("}")
+	}
+}
+
 func (r *rend) rest(s *Spec) {
 	for _, sv := range s.Services {
 		r.line("service %s {", sv.Name)
@@ -556,27 +609,7 @@ func (r *rend) rest(s *Spec) {
 		if sv.Base != nil {
 			r.line("basePath = %s", strconv.Quote(*sv.Base))
 		}
-		for _, m := range sv.Methods {
-			r.line("")
-			r.line("method %s {", m.Name)
-			r.ind++
-			r.line("httpMethod = %q", m.Verb)
-			r.line("httpPath = %s", strconv.Quote(m.Path))
-			r.line("request {")
-			r.ind++
-			r.props("field", m.Req)
-			r.ind--
-			r.line("}")
-			if m.HasResp {
-				r.line("response {")
-				r.ind++
-				r.props("field", m.Resp)
-				r.ind--
-				r.line("}")
-			}
-			r.ind--
-			r.line("}")
-		}
+		r.methods(sv.Methods)
 		r.ind--
 		r.line("}")
 		r.line("")
@@ -631,6 +664,20 @@ func (r *rend) rest(s *Spec) {
 			r.line("event %s {", ev.Name)
 			r.ind++
 			r.props("field", ev.Props)
+			r.ind--
+			r.line("}")
+		}
+		for _, sv := range en.Commands {
+			if sv.Name == "" {
+				r.line("commands {")
+			} else {
+				r.line("commands %s {", sv.Name)
+			}
+			r.ind++
+			if sv.Base != nil {
+				r.line("basePath = %s", strconv.Quote(*sv.Base))
+			}
+			r.methods(sv.Methods)
 			r.ind--
 			r.line("}")
 		}
